@@ -4,8 +4,10 @@ mod corescn;
 mod model;
 mod ops;
 mod props_core;
+mod props_session;
 mod real;
 mod runner;
+mod session;
 
 use mc::{Known, Limits, Scenario};
 use runner::{Tiered, run_scenarios, tier_from_args};
@@ -29,6 +31,13 @@ const CORE_ASSUMPTIONS: &[&str] = &[
     "import documents with a value at the root of the tree (a key no request can name) are outside the alphabet",
 ];
 
+const SESSION_ASSUMPTIONS: &[&str] = &[
+    "sessions are driven in process: the real core task (body of run_in_regular_mode without the shutdown branch), one real Proto per session fed one line at a time, outgoing messages read from the session's channel; after every line the harness yields 24 times so that forwarding tasks run (their polling order among each other is tokio's FIFO and is not enumerated; the oracle does not depend on it)",
+    "handshake messages (protocol switch, authorization) are not 'requests'; duplicate subscription ids are outside the statements",
+    "messages are attributed to requests by transaction id; the order between messages of different transaction ids is not asserted",
+    "extended_monitoring=false; jemalloc/telemetry/sqlite features off; debug assertions and overflow checks on",
+];
+
 fn scenario_for(property: &str, known: &Known) -> Option<Box<dyn Scenario>> {
     Some(match property {
         "C01" => Box::new(props_core::c01(known)),
@@ -37,6 +46,8 @@ fn scenario_for(property: &str, known: &Known) -> Option<Box<dyn Scenario>> {
         "C06" => Box::new(props_core::c06(known, &[0, 1, 2], &["x", "x/y"])),
         "C07" => Box::new(props_core::c07(known, false)),
         "C08" => Box::new(props_core::c08(known)),
+        "C13" => Box::new(props_session::c13(known, true)),
+        "C17" => Box::new(props_session::c17(known, true)),
         _ => return None,
     })
 }
@@ -67,7 +78,7 @@ fn main() {
             vec![(
                 "store".into(),
                 Box::new(props_core::c01(&known)),
-                Tiered { quick: lim(3, 2, true, 40), thorough: lim(8, 3, true, 600) },
+                Tiered { quick: lim(7, 3, true, 40), thorough: lim(12, 5, true, 600) },
                 "graph",
             )],
             CORE_ASSUMPTIONS,
@@ -80,13 +91,49 @@ fn main() {
             vec![(
                 "ls".into(),
                 Box::new(props_core::c05(&known)),
-                Tiered { quick: lim(3, 2, true, 40), thorough: lim(7, 3, true, 600) },
+                Tiered { quick: lim(6, 3, true, 40), thorough: lim(9, 4, true, 600) },
                 "graph",
             )],
             CORE_ASSUMPTIONS,
             "every history over the listed request alphabet (mutators + ls subscriptions at every position) up to the completed depth, de-duplicated by a complete state snapshot; distinct_nontrivial counts distinct (request kind, answer class) pairs observed",
         ),
         "C04" => c04::run(&tier),
+        "C13" => run_scenarios(
+            "C13",
+            &tier,
+            "model_checking",
+            vec![
+                (
+                    "full-alphabet".into(),
+                    Box::new(props_session::c13(&known, true)),
+                    Tiered { quick: lim(2, 2, true, 40), thorough: lim(3, 2, true, 500) },
+                    "graph",
+                ),
+                (
+                    "core-alphabet".into(),
+                    Box::new(props_session::c13(&known, false)),
+                    Tiered { quick: lim(3, 2, true, 40), thorough: lim(5, 3, true, 500) },
+                    "graph",
+                ),
+            ],
+            SESSION_ASSUMPTIONS,
+            "every sequence of request lines (all request kinds of protocol v0 and v1 with valid and invalid arguments) of two concurrent sessions through the real protocol handler and the real core task, up to the completed depth, de-duplicated by the core snapshot plus session state; distinct_nontrivial counts distinct request kinds exercised per scenario",
+        ),
+        "C17" => run_scenarios(
+            "C17",
+            &tier,
+            "model_checking",
+            vec![
+                (
+                    "adversary-full".into(),
+                    Box::new(props_session::c17(&known, true)),
+                    Tiered { quick: lim(2, 2, false, 40), thorough: lim(3, 2, false, 600) },
+                    "tree",
+                ),
+            ],
+            SESSION_ASSUMPTIONS,
+            "every sequence of adversary lines (all request kinds with valid/invalid/absurd arguments, malformed and undecodable lines) interleaved with witness requests, each followed by a fixed witness script whose answers the reference predicts; harness built with debug assertions and overflow checks; distinct_nontrivial counts distinct line kinds",
+        ),
         "C02" => {
             let mut v: Vec<(String, Box<dyn Scenario>, Tiered, &'static str)> = vec![];
             for (name, sc) in c02::scenarios(&tier) {
@@ -118,7 +165,7 @@ fn main() {
             vec![(
                 "events".into(),
                 Box::new(props_core::c03(&known, 3)),
-                Tiered { quick: lim(4, 2, true, 40), thorough: lim(8, 3, true, 600) },
+                Tiered { quick: lim(6, 3, true, 40), thorough: lim(9, 4, true, 600) },
                 "graph",
             )],
             CORE_ASSUMPTIONS,
@@ -131,7 +178,7 @@ fn main() {
             vec![(
                 "locks".into(),
                 Box::new(props_core::c06(&known, &[0, 1, 2], &["x", "x/y"])),
-                Tiered { quick: lim(4, 2, true, 40), thorough: lim(9, 3, true, 600) },
+                Tiered { quick: lim(7, 3, true, 40), thorough: lim(10, 5, true, 600) },
                 "graph",
             )],
             CORE_ASSUMPTIONS,
@@ -144,7 +191,7 @@ fn main() {
             vec![(
                 "sessions".into(),
                 Box::new(props_core::c07(&known, tier == "thorough")),
-                Tiered { quick: lim(4, 2, true, 40), thorough: lim(7, 3, true, 600) },
+                Tiered { quick: lim(6, 3, true, 40), thorough: lim(8, 4, true, 600) },
                 "graph",
             )],
             CORE_ASSUMPTIONS,
@@ -157,7 +204,7 @@ fn main() {
             vec![(
                 "sys".into(),
                 Box::new(props_core::c08(&known)),
-                Tiered { quick: lim(2, 1, true, 40), thorough: lim(4, 2, true, 600) },
+                Tiered { quick: lim(4, 2, true, 40), thorough: lim(5, 3, true, 600) },
                 "graph",
             )],
             CORE_ASSUMPTIONS,
